@@ -96,9 +96,28 @@ TCall ==
                     ELSE "open"
        /\ UNCHANGED <<ends, badset, fps>>
 
+\* Hand-over (record `handover k res1 first res2 second`): every byte was available; a first handler
+\* took frames 1..k-1 and refused frame k; a second read on the same buffer (no new bytes) handed on
+\* frame k and everything behind it - nothing is lost or repeated because a handler said no.
+THandover ==
+    /\ IsEv("handover")
+    /\ LET e == Rec[l]
+           n == Len(ends)
+           idx1 == [i \in 1..Len(e.first) |-> e.first[i][1]]
+           idx2 == [i \in 1..Len(e.second) |-> e.second[i][1]]
+       IN Step(<<
+            <<"C06:nopanic", e.res1 # "panic" /\ e.res2 # "panic">>,
+            <<"C06:handover", badset = {} =>
+                 /\ e.res1 = "refused"
+                 /\ idx1 = [i \in 1..(e.k - 1) |-> i]
+                 /\ e.res2 = "ok"
+                 /\ idx2 = [i \in 1..(n - e.k + 1) |-> e.k + i - 1]>>
+          >>)
+    /\ UNCHANGED <<ends, badset, fps, consumed, delivered, status>>
+
 TSkip == Skipping /\ Skip /\ UNCHANGED <<ends, badset, fps, consumed, delivered, status>>
 
-Next == IF Skipping THEN TSkip ELSE (TReset \/ TCall)
+Next == IF Skipping THEN TSkip ELSE (TReset \/ TCall \/ THandover)
 
 Spec == Init /\ [][Next]_vars
 =============================================================================
